@@ -236,9 +236,12 @@ example : Init lruSys ∧ Reachable lruSys (run lruSched lruSys) ∧ lruSys.cfg.
     `Cache._def_regions[defname]`, `lexer._regexp_cache[…]`, `TemplateLookup._uri_cache[key]`,
     `ModuleInfo._modules[…]` – the statement that stores the object into the shared container is not followed by
     statements that still mutate it: the value is complete at the moment it becomes visible to other threads, which is
-    what the model's one-step write of `memoVal` assumes. -/
+    what the model's one-step write of `memoVal` assumes.  Sixth cell: the module of `<%namespace module="…"/>`
+    (first use = first import) – `ModuleNamespace.__init__` obtains it through `__import__`, i.e. under the
+    per-module import lock, and never from `sys.modules`, where a module another thread is still initialising is
+    already visible. -/
 theorem memo_cells_stored_complete :
-    Generated.Conc.memoCells.length = 5 ∧ Generated.Conc.memoCells.all (fun c => c.2) = true := by decide
+    Generated.Conc.memoCells.length = 6 ∧ Generated.Conc.memoCells.all (fun c => c.2) = true := by decide
 
 /-- Renders are independent: (1) a step of thread `a` leaves the record of every other thread (program counter,
     per-render context and buffers, results) untouched; (2) every shared memo cell is unset or holds the one value
